@@ -134,6 +134,11 @@ func (s *nullChunkSection) copy(dst *os.File, offset, length uint64) (uint64, ui
 func (s *nullChunkSection) clone(dst *os.File, offset, length, blocksize uint64) (uint64, uint64, error) {
 	dstAlignStart := (offset/blocksize + 1) * blocksize
 	dstAlignEnd := (offset + length) / blocksize * blocksize
+	// If the range doesn't cover at least one whole aligned block there is
+	// nothing to clone, just write the zeros
+	if dstAlignEnd <= dstAlignStart {
+		return s.copy(dst, offset, length)
+	}
 
 	// fill the area before the first aligned block
 	var copied, cloned uint64
